@@ -81,7 +81,10 @@ def translate(repo):
         body = fn_body(de, r'fn parse_whitespace\(&mut self\) -> Result<Option<u8>> \{')
         m = re.search(r'Some\(([^)]*)\) => \{\s*self\.eat_char\(\);\s*\}\s*other => \{\s*return Ok\(other\);', body)
         if not m:
-            raise Broken('parse_whitespace arm')
+            # the same loop written as `while let Some(<bytes>) = <peeked> { self.eat_char(); <peek again> } Ok(<peeked>)`
+            m = re.search(r'while let Some\(([^)]*)\) = (\w+) \{\s*self\.eat_char\(\);\s*\2 = tri!\(self\.peek\(\)\);\s*\}\s*Ok\(\2\)', body)
+            if not (m and re.search(r'let mut %s = tri!\(self\.peek\(\)\);' % m.group(2), body)):
+                raise Broken('parse_whitespace arm')
         return sorted(byte_alts(m.group(1)))
     item('WS_SET', ws_set)
 
